@@ -18,9 +18,10 @@ package intdataplane
 //      current nodes and current services, in sorted order, in one batch;
 //   2. when all managers have completed a batch: every current load-balancer address that is
 //      answerable at all (right family, inside the no-encap pool and the host subnet, interface
-//      up) is answered by exactly one manager, that manager's node is a current member, and it
-//      is the node a fresh ring (fresh manager's ring fed the current members in sorted and in
-//      reverse order) elects; with no current member nobody answers.
+//      up) is answered by exactly one manager, that manager's node is a current member, and a
+//      manager started now on that node (told the current members in reverse order) answers too;
+//      with no current member nobody answers.  (The ring itself is not inspected: whether an
+//      implementation stores names verbatim or normalised is not the property's business.)
 //
 // Doubles: the netlink handle (LinkByName / AddrList only) and the raw ARP / NDP sockets are
 // small recording doubles defined here (the package's own mocks need Gomega).  What a manager
@@ -46,6 +47,7 @@ import (
 	"golang.org/x/net/ipv6"
 	"pgregory.net/rapid"
 
+	"github.com/projectcalico/calico/felix/config"
 	"github.com/projectcalico/calico/felix/netlinkshim"
 	"github.com/projectcalico/calico/felix/proto"
 	"github.com/projectcalico/calico/felix/rules"
@@ -368,26 +370,129 @@ func c45mAddrPool(family uint8) []string {
 }
 
 // ---------------------------------------------------------------------------------------
+// node names
+//
+// A node name is whatever string the Node resource / FELIX_FELIXHOSTNAME carries; Felix accepts
+// config.HostnameRegexp (`^[a-zA-Z0-9_.-]+$`) for its own name, so upper-case letters, dots and
+// underscores are legal (NODENAME set by hand, OpenStack compute hosts, etcd-mode clusters), and
+// the datastore key is case-sensitive: two names differing only by case are two nodes.  Every
+// manager's local hostname is exactly its node's name.
+
+func c45mCapitalise(s string) string {
+	b := []byte(s)
+	start := true
+	for i, c := range b {
+		if start && c >= 'a' && c <= 'z' {
+			b[i] = c - 'a' + 'A'
+		}
+		start = c == '.' || c == '-' || c == '_'
+	}
+	return string(b)
+}
+
+func c45mAlternate(s string) string {
+	b := []byte(s)
+	k := 0
+	for i, c := range b {
+		if c >= 'a' && c <= 'z' {
+			if k%2 == 1 {
+				b[i] = c - 'a' + 'A'
+			}
+			k++
+		}
+	}
+	return string(b)
+}
+
+// c45mDrawNames returns n distinct names and the name-shape classes they hit.
+func c45mDrawNames(t *rapid.T, n int) ([]string, []string) {
+	alphabet := rapid.SampledFrom([]string{"mixed-case", "lower-case", "mixed-case"}).Draw(t, "nameAlphabet")
+	var names []string
+	if alphabet == "lower-case" {
+		for i := 0; i < n; i++ {
+			names = append(names, fmt.Sprintf("node-%d", i))
+		}
+		return names, []string{"names-all-lower-case"}
+	}
+	shapes := []string{"worker-%d", "node-%d", "compute%d.example.com", "rack_%d.host", "ip-10-0-0-%d.ec2.internal", "n%d"}
+	casings := []string{"Capitalised", "lower", "UPPER", "aLtErNaTe"}
+	seen := map[string]bool{}
+	classes := map[string]bool{}
+	allowTwins := rapid.Bool().Draw(t, "allowNamesDifferingOnlyByCase")
+	for i := 0; len(names) < n; i++ {
+		if allowTwins && len(names) > 0 && rapid.IntRange(0, 2).Draw(t, "caseTwinOfPreviousName") == 2 {
+			// a second node whose name differs from the previous one only by case
+			p := names[len(names)-1]
+			added := false
+			for _, twin := range []string{strings.ToLower(p), strings.ToUpper(p), c45mCapitalise(strings.ToLower(p))} {
+				if !seen[twin] {
+					names = append(names, twin)
+					seen[twin] = true
+					classes["names-differing-only-by-case"] = true
+					added = true
+					break
+				}
+			}
+			if added {
+				continue
+			}
+		}
+		name := fmt.Sprintf(rapid.SampledFrom(shapes).Draw(t, "nameShape"), i)
+		switch rapid.SampledFrom(casings).Draw(t, "nameCasing") {
+		case "Capitalised":
+			name = c45mCapitalise(name)
+		case "UPPER":
+			name = strings.ToUpper(name)
+		case "aLtErNaTe":
+			name = c45mAlternate(name)
+		}
+		if seen[name] {
+			continue
+		}
+		seen[name] = true
+		names = append(names, name)
+	}
+	for _, nm := range names {
+		if !config.HostnameRegexp.MatchString(nm) {
+			t.Fatalf("HARNESS-GAP: generated node name %q is not a legal Felix hostname", nm)
+		}
+		if nm != strings.ToLower(nm) {
+			classes["names-with-upper-case"] = true
+		}
+		if strings.ContainsAny(nm, "._") {
+			classes["names-with-dot-or-underscore"] = true
+		}
+	}
+	var cl []string
+	for c := range classes {
+		cl = append(cl, c)
+	}
+	sort.Strings(cl)
+	return names, cl
+}
+
+// ---------------------------------------------------------------------------------------
 
 func TestVerifC45ProxyNeigh(t *testing.T) {
 	ev.Quiet()
 	rec := ev.New("C45", "proxyneigh",
-		"one real proxyNeighManager per node name (<=8, each with itself as local node) plus one non-member, one IP family per case, all fed the same generated history of HostMetadataUpdate/Remove (join, leave, re-join with same or changed address, swap = join+leave in one batch, bounce = leave+re-join of one node with no lookup in between, metadata-only updates, nodes without an address in the family), ServiceUpdate/Remove over <=12 addresses (both families, in and out of pool/subnet) and interface flaps, cut into batches; inside a batch single managers complete early. After every CompleteDeferredWork a manager's answered set is compared with a fresh manager given only the current state; after every batch each answerable address must be answered by exactly one member node, the one a fresh ring elects. Non-trivial = some batch held both a join and a leave, or a node re-joined; distinct = (family, node count, message-kind sequence)",
+		"one real proxyNeighManager per node name (<=8 names, either all lower case or drawn from Felix's hostname syntax [a-zA-Z0-9_.-]+ with upper-case letters, dots, underscores and pairs differing only by case; each manager has exactly its node's name as local hostname) plus one non-member, one IP family per case, all fed the same generated history of HostMetadataUpdate/Remove (join, leave, re-join with same or changed address, swap = join+leave in one batch, bounce = leave+re-join of one node with no lookup in between, metadata-only updates, nodes without an address in the family), ServiceUpdate/Remove over <=12 addresses (both families, in and out of pool/subnet) and interface flaps, cut into batches; inside a batch single managers complete early. After every CompleteDeferredWork a manager's answered set is compared with a fresh manager given only the current state; after every batch each answerable address must be answered by exactly one member node (which a manager started now, told the nodes in reverse order, confirms). Non-trivial = some batch held both a join and a leave, or a node re-joined; distinct = (family, node count, name-shape classes, message-kind sequence)",
 		"all Felix instances receive the same datastore history (per-instance batching differs)",
 		"all nodes sit on the same L2 subnet and see the same no-encap pool (the feature's deployment model)",
 		"what a manager answers for = its listeners' published desired sets (the reply path's wantsIP)")
 	defer rec.Write()
 
-	allNames := []string{"node-0", "node-1", "node-2", "node-3", "node-4", "node-5", "node-6", "node-7"}
+	const maxNames = 8
 	svcIDs := [][2]string{{"default", "web"}, {"default", "api"}, {"prod", "web"}, {"kube-system", "ingress"}}
 
 	rapid.Check(t, func(t *rapid.T) {
 		family := uint8(rapid.SampledFrom([]int{4, 6}).Draw(t, "ipFamily"))
-		nNames := rapid.IntRange(2, len(allNames)).Draw(t, "nNodeNames")
-		w := &c45mWorld{family: family, names: allNames[:nNames], nodes: map[string]c45mNodeAddrs{}, svcs: map[string]*proto.ServiceUpdate{}}
+		nNames := rapid.IntRange(2, maxNames).Draw(t, "nNodeNames")
+		nodeNames, nameClasses := c45mDrawNames(t, nNames)
+		w := &c45mWorld{family: family, names: nodeNames, nodes: map[string]c45mNodeAddrs{}, svcs: map[string]*proto.ServiceUpdate{}}
 		addrPool := c45mAddrPool(family)
 
-		hostnames := append(append([]string{}, w.names...), "not-a-member")
+		hostnames := append(append([]string{}, w.names...), "Not-A-Member")
 		rigs := make([]*c45mRig, len(hostnames))
 		for i, h := range hostnames {
 			rigs[i] = c45mNewRig(family, h)
@@ -405,6 +510,9 @@ func TestVerifC45ProxyNeigh(t *testing.T) {
 		var hist []string  // readable history
 		var shape []string // message kinds
 		classes := map[string]bool{fmt.Sprintf("ipv%d", family): true}
+		for _, c := range nameClasses {
+			classes[c] = true
+		}
 		nontrivial := false
 		everMember := map[string]string{} // node -> family address it last was a member with
 		addrGen := map[string]int{}       // per node address generation
@@ -437,12 +545,21 @@ func TestVerifC45ProxyNeigh(t *testing.T) {
 		prevOwner := map[string]string{}
 		checkCluster := func(when string, nodesOnlyBatch bool) {
 			live := w.members()
-			// reference rings: those of two fresh managers that were told the current state (sorted
-			// and reverse node order) and completed one batch
-			refA := w.fresh("ring-reference", false, true)
-			refB := w.fresh("ring-reference", true, true)
-			defer refA.mgr.Stop()
-			defer refB.mgr.Stop()
+			// what a manager started now, told the current nodes in REVERSE order, answers for
+			// (oracle 1 covers sorted order); computed lazily per hostname
+			revClaims := map[string]map[string]bool{}
+			freshReverseClaims := func(hostname, ip string) bool {
+				if revClaims[hostname] == nil {
+					f := w.fresh(hostname, true, true)
+					m := map[string]bool{}
+					for _, c := range f.claims() {
+						m[c] = true
+					}
+					f.mgr.Stop()
+					revClaims[hostname] = m
+				}
+				return revClaims[hostname][ip]
+			}
 			claimsBy := map[string][]string{} // address -> hostnames answering
 			for _, r := range rigs {
 				for _, ip := range r.claims() {
@@ -462,17 +579,15 @@ func TestVerifC45ProxyNeigh(t *testing.T) {
 					classes["flush-with-no-member"] = true
 					continue
 				}
-				ea, oka := refA.mgr.nodeRing.Lookup(ip)
-				eb, okb := refB.mgr.nodeRing.Lookup(ip)
-				if !oka || !okb || ea != eb {
-					t.Fatalf("%s: rings of fresh managers do not elect one owner for %s: nodes told in sorted order -> %q (ok=%v), in reverse order -> %q (ok=%v); current members %v\nhistory: %s", when, ip, ea, oka, eb, okb, live, histStr())
-				}
-				if len(who) != 1 || who[0] != ea {
-					t.Fatalf("%s: load-balancer address %s (IPv%d) is answered by %v; exactly one node must answer and a ring built fresh from the current members %v elects %q\ncurrent nodes: %v\nhistory: %s",
-						when, ip, family, who, live, ea, w.nodes, histStr())
+				if len(who) != 1 {
+					t.Fatalf("%s: load-balancer address %s (IPv%d) is answered by %v; exactly one of the current members %v must answer\ncurrent nodes: %v\nhistory: %s",
+						when, ip, family, who, live, w.nodes, histStr())
 				}
 				if !w.isMember(who[0]) {
 					t.Fatalf("%s: %s is answered by %q which is not a current member (%v)\nhistory: %s", when, ip, who[0], live, histStr())
+				}
+				if !freshReverseClaims(who[0], ip) {
+					t.Fatalf("%s: %s is answered by %q, but a manager started now on %q and told the current nodes in reverse order does not answer for it (members %v)\nhistory: %s", when, ip, who[0], who[0], live, histStr())
 				}
 				owners[ip] = who[0]
 				if p, ok := prevOwner[ip]; ok && p != who[0] {
@@ -498,7 +613,7 @@ func TestVerifC45ProxyNeigh(t *testing.T) {
 
 		newAddrs := func(n string, withFamily, changed bool) c45mNodeAddrs {
 			idx := 0
-			for i, x := range allNames {
+			for i, x := range w.names {
 				if x == n {
 					idx = i
 				}
@@ -564,6 +679,9 @@ func TestVerifC45ProxyNeigh(t *testing.T) {
 			if w.isMember(n) {
 				bs.leaves++
 				bs.removed[n] = true
+				if n != strings.ToLower(n) {
+					classes["member-with-upper-case-name-left"] = true
+				}
 			}
 			delete(w.nodes, n)
 			hist = append(hist, fmt.Sprintf("leave(%s)", n))
@@ -874,9 +992,9 @@ func TestVerifC45ProxyNeigh(t *testing.T) {
 			cl = append(cl, c)
 		}
 		sort.Strings(cl)
-		key := fmt.Sprintf("v%d/n%d/%s", family, nNames, strings.Join(shape, ","))
+		key := fmt.Sprintf("v%d/n%d/%s/%s", family, nNames, strings.Join(nameClasses, "+"), strings.Join(shape, ","))
 		rec.SizedCase(nontrivial, key, len(shape), func() any {
-			return map[string]any{"ipFamily": family, "nodeNames": nNames, "history": histStr(), "finalMembers": w.members(), "finalLB": w.currentLB()}
+			return map[string]any{"ipFamily": family, "nodeNames": w.names, "history": histStr(), "finalMembers": w.members(), "finalLB": w.currentLB()}
 		}, cl...)
 	})
 }
@@ -926,6 +1044,63 @@ func TestVerifC45RegressionAddrLost(t *testing.T) {
 			if strings.Join(got, ",") != strings.Join(want, ",") {
 				t.Fatalf("IPv%d manager on %s (unrelated service change in the same batch: %v): node-1 was a member and then reported no IPv%d address; this manager answers for %v, a manager started afterwards answers for %v (members now: %v)",
 					family, local, nudge, family, got, want, w.members())
+			}
+		}
+	}
+}
+
+// TestVerifC45RegressionMixedCaseLeave: a small fixed history over node names that are legal Felix
+// hostnames but not all lower case (and two that differ only by case): the nodes join, one with an
+// upper-case letter leaves.  Every manager must answer exactly as a manager started afterwards, and
+// every address must have exactly one answering node.
+func TestVerifC45RegressionMixedCaseLeave(t *testing.T) {
+	ev.Quiet()
+	for _, family := range []uint8{4, 6} {
+		names := []string{"worker-a", "Worker-B", "worker-b", "node.Example.com", "RACK_1.host"}
+		for _, leaver := range []string{"Worker-B", "node.Example.com", "RACK_1.host", "worker-b"} {
+			w := &c45mWorld{family: family, names: names, nodes: map[string]c45mNodeAddrs{}, svcs: map[string]*proto.ServiceUpdate{}, ifaceUp: true}
+			w.svcs["default/web"] = &proto.ServiceUpdate{Namespace: "default", Name: "web", Type: "LoadBalancer", LoadbalancerIngressIps: c45mAddrPool(family)[:8]}
+			var rigs []*c45mRig
+			for i, n := range names {
+				w.nodes[n] = c45mNodeAddrs{V4: fmt.Sprintf("172.16.0.%d/24", i+1), V6: fmt.Sprintf("2001:db8::%x/64", i+1)}
+			}
+			for _, n := range names {
+				r := c45mNewRig(family, n)
+				r.mgr.OnUpdate(w.poolMsg())
+				w.setIface(r, true)
+				for _, m := range names {
+					r.mgr.OnUpdate(w.nodeMsg(m))
+				}
+				r.mgr.OnUpdate(w.svcs["default/web"])
+				if err := r.mgr.CompleteDeferredWork(); err != nil {
+					t.Fatalf("HARNESS-GAP: %v", err)
+				}
+				rigs = append(rigs, r)
+			}
+			delete(w.nodes, leaver)
+			answered := map[string][]string{}
+			for _, r := range rigs {
+				r.mgr.OnUpdate(&proto.HostMetadataRemove{Hostname: leaver})
+				if err := r.mgr.CompleteDeferredWork(); err != nil {
+					t.Fatalf("HARNESS-GAP: %v", err)
+				}
+				f := w.fresh(r.hostname, false, true)
+				got, want := r.claims(), f.claims()
+				r.mgr.Stop()
+				f.mgr.Stop()
+				if strings.Join(got, ",") != strings.Join(want, ",") {
+					t.Fatalf("IPv%d: nodes %v joined, then %q left: manager on %q answers for %v, a manager started afterwards answers for %v",
+						family, names, leaver, r.hostname, got, want)
+				}
+				for _, ip := range got {
+					answered[ip] = append(answered[ip], r.hostname)
+				}
+			}
+			for _, ip := range w.currentLB() {
+				if who := answered[ip]; len(who) != 1 || !w.isMember(who[0]) {
+					t.Fatalf("IPv%d: nodes %v joined, then %q left: address %s is answered by %v; exactly one current member (%v) must answer",
+						family, names, leaver, ip, who, w.members())
+				}
 			}
 		}
 	}
